@@ -288,7 +288,8 @@ def main():
             if enc == "gzip" and L and len(L) > 3 and L[3].startswith("P -"):
                 continue          # writing this encoding is not supported by the build: nothing to compare
             if bad:
-                viol("extents/after-append/%s" % enc, "extents right after gd_putdata through the same handle (%s encoding, spf %d, frame offset %d, %d samples): %s" % (
+                stale = all("E r" in b or "E p" in b or "E m" in b for b in bad) and enc != "none"
+                viol("extents/eof-stale-after-write" if stale else "extents/after-append/%s" % enc, "extents right after gd_putdata through the same handle (%s encoding, spf %d, frame offset %d, %d samples): %s" % (
                     enc, spf, fo, n0, "; ".join(bad[:4])), {"kind": "append", "format": open(os.path.join(pd, "format")).read(), "commands": cmds, "output": L})
 
     chk.cov["evaluations"] = st["queries"] + st["fields"]
